@@ -289,7 +289,112 @@ pub fn run(env: &Env) -> i32 {
         Ok(())
     });
 
+    // project layouts through the built CLI: specifiers and source-map sources land on the intended files
+    rep.note("campaign layouts (built CLI): generated valid projects (config root, schema / operation / output directories incl. trees that diverge and re-converge, output stems with extra dots, 1-4 operation files in nested directories with equal base names connected by variously spelled #import paths); `generate` must succeed, every relative module specifier in the operation and resolver declaration files must resolve (TS->JS extension mapping undone) to the generated schema declaration file, every `sources` entry of every source map to an existing input file. Non-trivial: >= 2 operation files or a dotted output stem");
+    rep.shrink_iters = Some(150);
+    let base = work_dir("c20");
+    let b2 = base.clone();
+    rep.campaign("layouts", env.cases(5_000, 40_000), (300, 1800), move |case| layout_case(case, &b2));
+    let _ = std::fs::remove_dir_all(&base);
     rep.finish()
+}
+
+fn layout_case(case: &mut Case, base: &Path) -> CaseResult {
+    use crate::cli::run_cli;
+    use crate::projects::{dir_of, gen_project, norm, write_project, ProjectOpts};
+    let mut po = ProjectOpts::default();
+    // more fragments => longer import chains through the nested library files
+    po.doc.max_frags = 6;
+    po.doc.all_fragments_used = true;
+    let gp = gen_project(case, &po);
+    let proj = write_project(&gp, base);
+    let root = proj.path(&gp.layout.root);
+    let run = run_cli(&root, &["generate", "--output-format", "json"]);
+    let detail = json!({"config": gp.config, "files": gp.schema_files.iter().chain(gp.op_files.iter()).map(|(p, t)| json!({"path": p, "text": t})).collect::<Vec<_>>(),
+        "status": run.status, "stdout": run.stdout.chars().take(800).collect::<String>(), "stderr": run.stderr.chars().take(400).collect::<String>()});
+    let res = (|| -> CaseResult {
+        if run.crashed() {
+            return Err(Failure::new("cli-crashed", "generate crashed".to_string(), detail.clone()));
+        }
+        if run.status != Some(0) {
+            return Err(Failure::new("valid-project-rejected", format!("generate exits {:?} on a valid project (import paths / output paths not resolved as written?)", run.status), detail.clone()));
+        }
+        let abs = |rel: &str| norm(&proj.path(rel).to_string_lossy());
+        let schema_out = abs(&format!("{}/{}", gp.layout.root, gp.layout.schema_output));
+        let inputs: std::collections::BTreeSet<String> = gp.schema_files.iter().chain(gp.op_files.iter()).map(|(p, _)| abs(p)).collect();
+        let outputs = crate::props::c06::expected_outputs(&gp);
+        for out in outputs.iter().skip(1) {
+            let path = abs(out);
+            let Ok(text) = std::fs::read_to_string(&path) else {
+                return Err(Failure::new("output-missing", format!("{out} was not written"), detail.clone()));
+            };
+            case.evals(1);
+            // relative module specifiers
+            for (i, _) in text.match_indices(" from \"") {
+                let rest = &text[i + 7..];
+                let Some(end) = rest.find('"') else { continue };
+                let spec = &rest[..end];
+                if !spec.starts_with('.') {
+                    continue;
+                }
+                let target = norm(&format!("{}/{}", dir_of(&path), spec));
+                // undo the TS -> JS extension mapping
+                let cands: Vec<String> = [(".js", vec![".ts", ".d.ts", ".tsx"]), (".mjs", vec![".mts", ".d.mts"]), (".cjs", vec![".cts", ".d.cts"])]
+                    .iter()
+                    .filter_map(|(js, tss)| target.strip_suffix(js).map(|stem| tss.iter().map(|t| format!("{stem}{t}")).collect::<Vec<_>>()))
+                    .flatten()
+                    .chain(std::iter::once(target.clone()))
+                    .collect();
+                if !cands.iter().any(|c| *c == schema_out) {
+                    return Err(Failure::new(
+                        "specifier-lands-elsewhere",
+                        format!("{out} imports {spec:?}, which denotes {target} - not the generated schema module {schema_out}"),
+                        json!({"detail": detail, "declaration": out}),
+                    ));
+                }
+            }
+            // source map
+            let map_path = format!("{path}.map");
+            if let Ok(mt) = std::fs::read_to_string(&map_path) {
+                if let Ok(v) = serde_json::from_str::<serde_json::Value>(&mt) {
+                    for s in v["sources"].as_array().cloned().unwrap_or_default() {
+                        let Some(s) = s.as_str() else { continue };
+                        let target = norm(&format!("{}/{}", dir_of(&map_path), s));
+                        if !inputs.contains(&target) {
+                            return Err(Failure::new(
+                                "map-source-lands-elsewhere",
+                                format!("{out}.map lists source {s:?}, which denotes {target} - not an input file"),
+                                json!({"detail": detail, "map": format!("{out}.map")}),
+                            ));
+                        }
+                    }
+                }
+            }
+        }
+        Ok(())
+    })();
+    proj.remove();
+    res?;
+    if gp.op_files.len() >= 2 || gp.layout.schema_output.matches('.').count() >= 3 {
+        case.nontrivial(&(&gp.config, gp.op_files.iter().map(|f| f.0.clone()).collect::<Vec<_>>()));
+    }
+    case.label(&format!("op-files-{}", gp.op_files.len()));
+    {
+        // one specifier text denoting different files depending on the importing file
+        let mut by_text: std::collections::BTreeMap<String, std::collections::BTreeSet<String>> = Default::default();
+        for ((path, _), model) in gp.op_files.iter().zip(gp.op_file_models.iter()) {
+            for d in model {
+                if let crate::model::MExecDef::Import(i) = d {
+                    by_text.entry(i.path.clone()).or_default().insert(crate::projects::norm(&format!("{}/{}", crate::projects::dir_of(path), i.path)));
+                }
+            }
+        }
+        if by_text.values().any(|t| t.len() >= 2) {
+            case.label("same-specifier-different-targets");
+        }
+    }
+    case.sample(|| json!({"config": gp.config, "operation_files": gp.op_files.iter().map(|f| f.0.clone()).collect::<Vec<_>>()}));
+    Ok(())
 }
 
 /// reference relative path from file `from` to file `to` (both absolute, normalised)
